@@ -188,8 +188,10 @@ def ghostBlame (iev : IEv) (ds : List Delivery) (outcome : Outcome) (what : Stri
     | _, _ => false
   (if what == "comps" || what == "parts" || what == "ents" || what == "actions" || what == "assets" then
     [("C01", "newcomer-would-be-handed-another-state")] else []) ++
-  (if refused then [("C04", "refused-request-changed-state")] else []) ++
-  (if refused && foreignAttempt then [("C05", "refused-request-changed-state")] else []) ++
+  (if refused && !departure then [("C04", "refused-request-changed-state")] else []) ++
+  (if refused && !departure && foreignAttempt then [("C05", "refused-request-changed-state")] else []) ++
+  (if what == "assets" && (match iev with | .handle _ (some (.assetAdd ..)) _ => true | _ => false) then
+    [("C05", "asset-instance-not-where-its-owner-put-it")] else []) ++
   (if departure then [("C06", "departure-state-differs")] else []) ++
   (if what == "subs" then [("C13", "subscriptions-differ")] else []) ++
   (if what == "comps" || what == "types" then [("C12", "component-store-differs")] else []) ++
@@ -219,7 +221,11 @@ def processBlock (h : Hist) (b : Block) (outcome : Outcome) : Hist :=
         { h with diff := some s!"event={evNo} kind=outcome topic={topic} :: model {reprStr o} implementation {reprStr outcome}" }
       else match diffDeliveries ds b.ds with
       | some c =>
-        { h with diff := some s!"event={evNo} kind=delivery topic={topic} conn={c} actor={evActor iev} outs={",".intercalate (diffKinds (inboxOf c ds) (inboxOf c b.ds))} :: model {reprStr (inboxOf c ds)} implementation {reprStr (inboxOf c b.ds)}" }
+        -- what the requester itself is answered (not a join: the state handed over belongs to C01) is C04's subject
+        let own := c == evActor iev && (match iev with | .handle _ (some (.join ..)) _ => false | .handle _ (some _) _ => true | _ => false)
+        let viol := if own then h.concViol.push ("C04", "answer-differs-from-protocol",
+            s!"event {evNo} ({" ".intercalate (b.ev.take 8)}): the protocol answers {reprStr (inboxOf c ds)}, the server answered {reprStr (inboxOf c b.ds)}") else h.concViol
+        { h with concViol := viol, diff := some s!"event={evNo} kind=delivery topic={topic} conn={c} actor={evActor iev} outs={",".intercalate (diffKinds (inboxOf c ds) (inboxOf c b.ds))} :: model {reprStr (inboxOf c ds)} implementation {reprStr (inboxOf c b.ds)}" }
       | none =>
         let ms := sortNat (srv'.sessions.map (·.id))
         if ms != b.sessions then
